@@ -783,6 +783,8 @@ def iterate(I, it):
         if it.ndim == 0:
             raise PyExc("TypeError", ("iteration over a 0-d array",))
         return iter([tensor_index(I, it, i) for i in range(it.shape[0])])
+    if isinstance(it, ClassVal) and getattr(it, "enum_members", None) is not None:
+        return iter(list(it.enum_members))
     if isinstance(it, Ext):
         return it.py_iter(I)
     if isinstance(it, Obj):
@@ -1062,6 +1064,11 @@ def getitem(I, o, k):
         return o[k]
     if isinstance(o, Tensor):
         return tensor_index(I, o, k)
+    if isinstance(o, ClassVal) and getattr(o, "enum_members", None) is not None:
+        for m in o.enum_members:
+            if isinstance(k, str) and m.attrs["name"] == k:
+                return m
+        raise PyExc("KeyError", (k,))
     if isinstance(o, ClassVal):
         key = (id(o), tuple(id(x) for x in (k if isinstance(k, tuple) else (k,))))
         if key not in I.alias_cache:
